@@ -179,25 +179,26 @@ func init() {
 					}
 					re.MatchTimeout = time.Second
 					run := StackRun{Lim: L, Events: [][3]int{}, Init: -1}
-					regexp2.VerifOnScanStart = func(r *regexp2.Runner) {
+					regexp2.SetVerifOnScanStart(func(r *regexp2.Runner) {
 						if r.VerifRegexp() == re && run.Init < 0 {
 							run.Init = r.VerifState().TrackCap
 						}
-					}
-					regexp2.VerifOnGrow = func(r *regexp2.Runner, oldCap, newCap int) {
+					})
+					regexp2.SetVerifOnGrow(func(r *regexp2.Runner, oldCap, newCap int) {
 						if r.VerifRegexp() == re && len(run.Events) < 64 {
 							run.Events = append(run.Events, [3]int{r.VerifState().TrackDepth, oldCap, newCap})
 						}
-					}
-					regexp2.VerifOnPoint = func(point string, obj any, a, b int) {
+					})
+					regexp2.SetVerifOnPoint(func(point string, obj any, a, b int) {
 						if point == "putRunner" {
 							if r, ok := obj.(*regexp2.Runner); ok && r.VerifRegexp() == re && a > run.MaxCap {
 								run.MaxCap = a
 							}
 						}
-					}
+					})
 					run.Outcome, run.Msg, run.Res = outcomeOf(re, in)
-					regexp2.VerifOnScanStart, regexp2.VerifOnGrow = nil, nil
+					regexp2.SetVerifOnScanStart(nil)
+					regexp2.SetVerifOnGrow(nil)
 					var again Res
 					run.Again, _, again = outcomeOf(re, in)
 					run.AgainOK = run.Again == run.Outcome && fmt.Sprint(again) == fmt.Sprint(run.Res)
@@ -209,7 +210,7 @@ func init() {
 					} else {
 						run.Other = true
 					}
-					regexp2.VerifOnPoint = nil
+					regexp2.SetVerifOnPoint(nil)
 					rec.Runs = append(rec.Runs, run)
 					runs++
 				}
